@@ -201,6 +201,53 @@ func atoi(s string) int64 {
 	return v
 }
 
+// TLAPM checks the proofs of module mod (spec/proofs/<mod>.tla, which may extend modules of spec/) with the
+// TLA+ proof system in a private scratch copy. Returns the number of obligations proved; anything but
+// "All N obligations proved" is an error.
+func (e *Env) TLAPM(mod string, timeout time.Duration) (int, error) {
+	dir, err := os.MkdirTemp(e.Scratch, "tlapm.")
+	if err != nil {
+		return 0, err
+	}
+	defer os.RemoveAll(dir)
+	for _, sub := range []string{"spec", "spec/proofs"} {
+		ents, _ := os.ReadDir(filepath.Join(e.Home, sub))
+		for _, en := range ents {
+			if en.IsDir() || !strings.HasSuffix(en.Name(), ".tla") {
+				continue
+			}
+			b, err := os.ReadFile(filepath.Join(e.Home, sub, en.Name()))
+			if err != nil {
+				return 0, err
+			}
+			os.WriteFile(filepath.Join(dir, en.Name()), b, 0o644)
+		}
+	}
+	cmd := exec.Command("tlapm", "--threads", "16", "--cleanfp", mod+".tla")
+	cmd.Dir = dir
+	var out bytes.Buffer
+	cmd.Stdout = &out
+	cmd.Stderr = &out
+	if err := cmd.Start(); err != nil {
+		return 0, err
+	}
+	done := make(chan error, 1)
+	go func() { done <- cmd.Wait() }()
+	select {
+	case <-done:
+	case <-time.After(timeout):
+		cmd.Process.Kill()
+		<-done
+		return 0, fmt.Errorf("tlapm %s: timeout after %v", mod, timeout)
+	}
+	m := regexp.MustCompile(`All (\d+) obligations? proved`).FindStringSubmatch(out.String())
+	if m == nil {
+		return 0, fmt.Errorf("tlapm %s: proof not checked\n%s", mod, tail(out.String(), 3000))
+	}
+	n, _ := strconv.Atoi(m[1])
+	return n, nil
+}
+
 // TLC runs module mod (.tla and .cfg from spec/, spec/mc, spec/trace) in a private scratch copy.
 // overrides maps CONSTANT names to replacement right-hand sides in the cfg (e.g. "NMax" -> "60").
 func (e *Env) TLC(mod string, consts map[string]string, workers int, heapMB int, extraEnv []string, timeout time.Duration, extraArgs ...string) (*TLCResult, error) {
